@@ -75,6 +75,11 @@ CLAIMED = {
          "seeded search over histories of 2-4 connections opening, calling, closing (release or reset), reconnecting against single/session/percall classes x shapes (truthy, falsy via __len__/__bool__, __eq__ always true/false) x creators (none, counting, failing on k-th call, wrong type) x server types x schedules; oracle: single -> one serial for all successful calls and one construction; session -> constant serial per connection, distinct across connections, instance dead after the connection ended; percall -> all serials distinct; creator invocations == instances + failed attempts, a failed attempt surfaces as an error reply to that call only",
          "samples histories and schedules; pre-emption at source lines of _getInstance only; create_single_instance_lock replaced by a counting subclass of the simulated lock",
          "DESIGN.md section 4 C09"),
+ "C11": ("exploration",
+         "deterministic simulation: real Daemon (both server types) and real BatchProxy/Proxy clients; the same generated call sequence runs as one batch on object A and call by call on an identical object B (executable reference), with a concurrent background client, fragmentation and seeded scheduling; one-way batches judged at quiescence",
+         "seeded search over call sequences of length 0-8 (succeeding, raising, unexposed, private and missing names, kwargs, lossless-core arguments) x normal/one-way batch x second batch on the same BatchProxy x every serializer x compression x server types x concurrent/sequential execution x schedules; oracle: results equal position by position up to the first failure, the failure is the reference's exception class and args (at its position or at submission), states equal, nothing after the failure executed, one-way batch returns None and leaves the reference prefix's state",
+         "reference-model refinement over sampled histories with an (almost) empty fault space; the simulator contributes multi-party execution, interleaving and quiescence; arguments stay inside the lossless core",
+         "DESIGN.md section 4 C11"),
 }
 PENDING = "claimed in DESIGN.md but its check is not built yet; see DESIGN.md section 4"
 ALL = ["C%02d" % i for i in range(1, 21)]
